@@ -28,7 +28,10 @@ def pOut : P ListenOut := do
   let w ← P.list P.int
   pure { delivered := d, invalid := inv, waits := w, result := res }
 
-/-- `lst mode n read* | result nd (kind host)* ni kind* nw wait*` — the real Listen over a script -/
+/-- `lst mode n read* | result nd (kind host)* ni kind* nw wait*` — the real Listen over a script.
+    The oracle (`Spec.C09.holds`) judges the implementation's observation on every script —
+    timeouts and read errors included — from the script alone; the note names the clause that
+    rejected it (`Spec.C09.failedClause`). -/
 def lst (c impl : List String) : Option Verdict := do
   let (_mode, script) ← P.run (do let m ← P.nat; let s ← P.list pRead; pure (m, s)) c
   let m := listenSrc script
@@ -38,7 +41,7 @@ def lst (c impl : List String) : Option Verdict := do
   let o ← P.run pOut impl
   let nt := script.any (fun r => match r with | .msg _ hop _ => hop != 255 | _ => false) &&
             !(Spec.C09.validOf script).isEmpty
-  pure { model := outToks m, oracle := Spec.C09.holdsMessagesOnly script o, nontrivial := nt,
-         note := if Spec.C09.holdsMessagesOnly script o then "" else "a script of messages only must deliver every valid message, count every invalid one and leave the listener running" }
+  pure { model := outToks m, oracle := Spec.C09.holds script o, nontrivial := nt,
+         note := Spec.C09.failedClause script o }
 
 end Driver.C09
